@@ -13,8 +13,8 @@ independently — the check compares the two byte for byte):
           {"fr", "k": "other", "id", "body"}
   val     ("blank",) ("rk","i",v,x100) ("rk","f",hi30,x100) ("err",code) ("bool",b) ("real",bits)
           ("st",text) ("isst",i) ("fst",text) ("fnum",bits) ("fbool",b) ("ferr",code)
-  layout  {"pre1": [raw], "dim": None | {"fr","d":(r0,c0,r1,c1),"tail"},
-           "pre2": [("R", raw) | ("B", raw, [raw], (fr, body))],
+  layout  {"pre1": [hrec], "dim": None | {"fr","d":(r0,c0,r1,c1),"tail"},   (BrtWsDim is optional)
+           "pre2": [hrec],      hrec = ("R", raw) | ("B", raw, [raw], (fr, body))
            "begin": (fr, body), "items": [item], "end": (fr, body), "trailer": bytes}
   env     {"fmts": [0|1|2 per XF], "xf_ids": [numFmtId per XF], "customs": [(id, code)],
            "d1904": bool, "strings": [text]}
@@ -106,17 +106,18 @@ def item_body(it):
 def enc_raw(r):
     return frame(r["fr"], r["id"], r["body"])
 
+def enc_hrec(h):
+    if h[0] == "R":
+        return enc_raw(h[1])
+    return (enc_raw(h[1]) + b"".join(enc_raw(r) for r in h[2]) +
+            frame(h[3][0], BLOCK_END[h[1]["id"]], h[3][1]))
+
 def enc_layout(L):
-    out = b"".join(enc_raw(r) for r in L["pre1"])
+    out = b"".join(enc_hrec(h) for h in L["pre1"])
     if L["dim"] is not None:
         r0, c0, r1, c1 = L["dim"]["d"]
         out += frame(L["dim"]["fr"], 0x94, struct.pack("<IIII", r0, r1, c0, c1) + L["dim"]["tail"])
-    for h in L["pre2"]:
-        if h[0] == "R":
-            out += enc_raw(h[1])
-        else:
-            out += enc_raw(h[1]) + b"".join(enc_raw(r) for r in h[2])
-            out += frame(h[3][0], BLOCK_END[h[1]["id"]], h[3][1])
+    out += b"".join(enc_hrec(h) for h in L["pre2"])
     out += frame(L["begin"][0], 0x91, L["begin"][1])
     for it in L["items"]:
         out += frame(it["fr"], item_id(it), item_body(it))
@@ -155,19 +156,18 @@ def item_text(it):
                                        val_text(it["v"]), hx(it["tail"]))
     return "%s,O,%d,%s" % (_fr(it["fr"]), it["id"], hx(it["body"]))
 
+def hrec_text(h):
+    if h[0] == "R":
+        return "R:" + _raw(h[1])
+    return "B:%s/%s/%s,%s" % (_raw(h[1]), "~".join(_raw(r) for r in h[2]) or "-", _fr(h[3][0]), hx(h[3][1]))
+
 def layout_text(L):
-    p1 = ";".join(_raw(r) for r in L["pre1"]) or "-"
+    p1 = ";".join(hrec_text(h) for h in L["pre1"]) or "-"
     if L["dim"] is None:
         dim = "-"
     else:
         dim = "%s,%d,%d,%d,%d,%s" % ((_fr(L["dim"]["fr"]),) + tuple(L["dim"]["d"]) + (hx(L["dim"]["tail"]),))
-    p2 = []
-    for h in L["pre2"]:
-        if h[0] == "R":
-            p2.append("R:" + _raw(h[1]))
-        else:
-            p2.append("B:%s/%s/%s,%s" % (_raw(h[1]), "~".join(_raw(r) for r in h[2]) or "-",
-                                        _fr(h[3][0]), hx(h[3][1])))
+    p2 = [hrec_text(h) for h in L["pre2"]]
     items = ";".join(item_text(it) for it in L["items"]) or "-"
     return "|".join([p1, dim, ";".join(p2) or "-", "%s,%s" % (_fr(L["begin"][0]), hx(L["begin"][1])),
                      items, "%s,%s" % (_fr(L["end"][0]), hx(L["end"][1])), hx(L["trailer"])])
